@@ -60,6 +60,10 @@ def cases(tier, seed):
         for sa in range(len(STATUS)):
             for sb in range(len(STATUS)):
                 out.append({"kind": "client", "finer": finer, "status": [sa, sb], "seed": seed})
+    # the end of the night: every modelled unit is reporting
+    for sa in range(len(STATUS)):
+        for sb in range(len(STATUS)):
+            out.append({"kind": "client", "finer": False, "status": [sa, sb], "complete": True, "seed": seed})
     # a contest that exists only through an unexpected unit without any votes yet (0/0 margin), called or stopped
     for sc in range(len(STATUS)):
         out.append({"kind": "client", "finer": False, "status": [0, 0], "empty_contest": sc, "seed": seed})
@@ -209,8 +213,12 @@ def _validation(case, cov, viol):
 
 
 def _client(case, cov, viol):
-    units = E.background(case["seed"], "G", 20, "AABB", partial=4)
-    units.append(E.make_probe(case["seed"], 0, "nonrep_partial", "pop0", weights="twoparty"))
+    if case.get("complete"):
+        units = E.background(case["seed"], "G", 20, "AABB", partial=0)
+        cov["complete_election_runs"] += 1
+    else:
+        units = E.background(case["seed"], "G", 20, "AABB", partial=4)
+        units.append(E.make_probe(case["seed"], 0, "nonrep_partial", "pop0", weights="twoparty"))
     aggs = ["postal_code", "county_fips", "unit"] if case["finer"] else ["postal_code", "unit"]
     sa, sb = STATUS[case["status"][0]], STATUS[case["status"][1]]
     contests = [("AA", sa), ("BB", sb)]
@@ -348,4 +356,4 @@ def evaluate(case):
     return {"violations": V, "cov": dict(cov), "outcome": sha([v["sig"] for v in V] + [case["kind"]]), "nontrivial": nontrivial, "transitions": max(1, runs)}
 
 
-REQUIRED_COUNTERS = {"decision_rows": 10000, "rows_called_left": 1000, "rows_called_right": 1000, "rows_stopped": 1000, "rows_untouched": 1000, "rows_called_and_stopped": 500, "invalid_lists_rejected": 8, "client_runs": 50, "client_invalid_rejected": 6, "empty_contest_runs": 6, "history_runs": 100, "district_office_contest_rows": 200}
+REQUIRED_COUNTERS = {"decision_rows": 10000, "rows_called_left": 1000, "rows_called_right": 1000, "rows_stopped": 1000, "rows_untouched": 1000, "rows_called_and_stopped": 500, "invalid_lists_rejected": 8, "client_runs": 50, "client_invalid_rejected": 6, "empty_contest_runs": 6, "history_runs": 100, "district_office_contest_rows": 200, "complete_election_runs": 30}
